@@ -100,7 +100,7 @@ def run_k4(tier, seed):
     gen_harness.main()
     bins = ensure_harness(["k3"])
     r = random.Random(seed * 577 + 3)
-    per_chain = 10 if tier == "quick" else 80
+    per_chain = 10 if tier == "quick" else 300
     cases, meta = [], []
     cid = 0
     for src in SOURCES:
